@@ -1,6 +1,7 @@
 package core
 
 import (
+	"sync/atomic"
 	"bytes"
 	"encoding/binary"
 	"encoding/json"
@@ -177,6 +178,7 @@ type driver struct {
 	bin       string
 	scratch   string
 	isoLabels map[int]string // chunk idx -> label
+	confirmed atomic.Int32   // worker deaths reproduced 3/3 in isolation so far (violations)
 }
 
 func (d *driver) workerCmd(c chunk, tag string, replay bool) (*exec.Cmd, string, string, string) {
@@ -302,6 +304,7 @@ func (d *driver) runChunk(c chunk) *Result {
 	acc := newResult()
 	from := c.from
 	attempt := 0
+	deaths := 0
 	for from < c.to {
 		attempt++
 		sub := chunk{idx: c.idx, from: from, to: c.to, label: c.label}
@@ -332,7 +335,19 @@ func (d *driver) runChunk(c chunk) *Result {
 				acc.Inconclusive["prefix-rerun-failed"]++
 			}
 		}
-		d.triage(c, last, code, tail, acc)
+		// Triage is expensive for hangs (3 isolated runs, each up to twice the watchdog period). Once two
+		// deaths have been reproduced the verdict of the run is settled (violated): further deaths are
+		// counted, not re-run, and a chunk that keeps dying is abandoned - inconclusive for those cases.
+		deaths++
+		if d.confirmed.Load() >= 2 {
+			acc.Inconclusive[fmt.Sprintf("worker-death-not-triaged-after-2-reproduced(code=%d)", code)]++
+			if deaths >= 2 {
+				acc.Inconclusive["cases-not-run-after-repeated-worker-deaths"] += int64(c.to - last - 1)
+				break
+			}
+		} else {
+			d.triage(c, last, code, tail, acc)
+		}
 		from = last + 1
 	}
 	return acc
@@ -379,6 +394,7 @@ func (d *driver) triage(c chunk, cs int, code int, tail string, acc *Result) {
 	if c.label != "" {
 		key = c.label + "/" + key
 	}
+	d.confirmed.Add(1)
 	acc.ViolCount[key]++
 	acc.Violations = append(acc.Violations, Violation{Key: key, Case: cs,
 		Detail: fmt.Sprintf("worker process died 3/3 times on this case in isolation (exit code %d)\n%s", lastCode, lastTail)})
